@@ -562,6 +562,9 @@ def r6_builder_keeps_seed(ctx):
         n += 1
         for b, t in ret_trees(f):
             t = peel(t)
+            # `self.limit(..)`: delegation to another by-value setter of the builder (examined on its own), self handed on
+            while t[0] == 'call' and strip_generics(str(t[1])).startswith(B + '::') and t[2] and strip_generics(str(P.fns[strip_generics(str(t[1]))].local_ty(1)) if strip_generics(str(t[1])) in P.fns else '') == B:
+                t = peel(t[2][0])
             if t[0] == 'arg' and t[1] == 1:
                 continue
             bad = None
